@@ -661,12 +661,29 @@ pub fn prepare_new_room(room_node: &RoomNode) -> Result<()> {
     let room = room_node.parse()?;
 
     //verify rights
-    for admin in &room_node.admin_nodes {
-        if !room.is_admin(&admin.node.verifying_key, admin.node.mdate) {
+    //an administrator entry must be authorised by the entries that precede it: the entries are replayed in date order
+    //(at the same date the entry that a key writes for itself comes first) into an empty history,
+    //and the only entry that can authorise itself is the first one, written by the room creator
+    let mut history = Room {
+        id: room.id,
+        mdate: room.mdate,
+        ..Default::default()
+    };
+    let mut admins: Vec<&UserNode> = room_node.admin_nodes.iter().collect();
+    admins.sort_by_cached_key(|admin| {
+        let own = matches!(admin.parse(), Ok(user) if user.verifying_key.eq(&admin.node.verifying_key));
+        (admin.node.mdate, !own)
+    });
+    for admin in admins {
+        let user = admin.parse()?;
+        let by_creator =
+            history.admins.is_empty() && user.verifying_key.eq(&admin.node.verifying_key);
+        if !by_creator && !history.is_admin(&admin.node.verifying_key, admin.node.mdate) {
             return Err(Error::InvalidNode(
                 "New RoomNode Administrator not authorised".to_string(),
             ));
         }
+        history.add_admin_user(user)?;
     }
 
     for auth in &room_node.auth_nodes {
